@@ -260,16 +260,17 @@ impl Report {
         let known = load_known_findings(self.id);
         let violations = self.violations.into_inner().unwrap();
         let mut new_violations = 0;
-        let mut known_hits = Vec::new();
+        // finding id -> (what, distinct inputs hit, occurrences)
+        let mut known_hits: BTreeMap<String, (String, usize, usize)> = BTreeMap::new();
         let mut lines = Vec::new();
         std::fs::create_dir_all(format!("{VERIF_DIR}/replays")).ok();
+        let mut all_keys = Vec::new();
         for (n, (key, (v, count))) in violations.iter().enumerate() {
-            if let Some(what) = known.get(key) {
-                lines.push(format!(
-                    "KNOWN-FINDING: property={} key={} {} ({} occurrences this run)",
-                    self.id, key, what, count
-                ));
-                known_hits.push(key.clone());
+            all_keys.push(key.clone());
+            if let Some((fid, what)) = known.get(key) {
+                let e = known_hits.entry(fid.clone()).or_insert((what.clone(), 0, 0));
+                e.1 += 1;
+                e.2 += count;
             } else {
                 new_violations += 1;
                 let path = format!("{VERIF_DIR}/replays/{}-{}.json", self.id, n);
@@ -281,13 +282,27 @@ impl Report {
                     "replay": v.replay,
                 });
                 std::fs::write(&path, serde_json::to_string_pretty(&body).unwrap()).ok();
-                lines.push(format!("VIOLATION property={} replay={}", self.id, path));
-                lines.push(format!("  key={} what={}", key, v.what));
+                if new_violations <= 40 {
+                    lines.push(format!("VIOLATION property={} replay={}", self.id, path));
+                    lines.push(format!("  key={} what={}", key, v.what));
+                }
             }
+        }
+        if new_violations > 40 {
+            lines.push(format!("  ... {} further violations (replay files written)", new_violations - 40));
+        }
+        for (fid, (what, inputs, occ)) in &known_hits {
+            lines.push(format!(
+                "KNOWN-FINDING: property={} finding={} {} ({} listed inputs hit, {} occurrences this run)",
+                self.id, fid, what, inputs, occ
+            ));
+        }
+        if std::env::var("VERIF_DUMP_KEYS").is_ok() {
+            std::fs::write(format!("{VERIF_DIR}/.keys-{}.json", self.id), serde_json::to_string_pretty(&json!(violations.iter().map(|(k, (v, _))| json!({"key": k, "what": v.what})).collect::<Vec<_>>())).unwrap()).ok();
         }
         let mut coverage = coverage;
         if let Value::Object(m) = &mut coverage {
-            m.insert("known_findings_hit".into(), json!(known_hits));
+            m.insert("known_findings_hit".into(), json!(known_hits.keys().collect::<Vec<_>>()));
         }
         let ev = json!({
             "property_id": self.id,
@@ -319,8 +334,10 @@ impl Report {
     }
 }
 
-/// key -> description for `property` from /verif/known_findings.json (never written at run time).
-pub fn load_known_findings(property: &str) -> BTreeMap<String, String> {
+/// key -> (finding id, description) for `property` from /verif/known_findings.json
+/// (never written at run time). A finding lists the exact failing inputs as `keys`
+/// (or a single `key`), so that a different failing input is still a VIOLATION.
+pub fn load_known_findings(property: &str) -> BTreeMap<String, (String, String)> {
     let mut out = BTreeMap::new();
     let path = format!("{VERIF_DIR}/known_findings.json");
     let Ok(text) = std::fs::read_to_string(&path) else {
@@ -331,12 +348,17 @@ pub fn load_known_findings(property: &str) -> BTreeMap<String, String> {
     };
     if let Some(list) = v.get("findings").and_then(|f| f.as_array()) {
         for f in list {
-            if f.get("property").and_then(|p| p.as_str()) == Some(property) {
-                if let (Some(k), Some(w)) = (
-                    f.get("key").and_then(|k| k.as_str()),
-                    f.get("what").and_then(|k| k.as_str()),
-                ) {
-                    out.insert(k.to_string(), w.to_string());
+            if f.get("property").and_then(|p| p.as_str()) != Some(property) {
+                continue;
+            }
+            let what = f.get("what").and_then(|k| k.as_str()).unwrap_or("").to_string();
+            let id = f.get("id").and_then(|k| k.as_str()).unwrap_or("unnamed").to_string();
+            if let Some(k) = f.get("key").and_then(|k| k.as_str()) {
+                out.insert(k.to_string(), (id.clone(), what.clone()));
+            }
+            if let Some(ks) = f.get("keys").and_then(|k| k.as_array()) {
+                for k in ks.iter().filter_map(|k| k.as_str()) {
+                    out.insert(k.to_string(), (id.clone(), what.clone()));
                 }
             }
         }
